@@ -52,6 +52,7 @@ def levelsStep (s : LvSt) (toks : List String) : LvSt × String :=
       ({ s with tables := rest ++ [(out, t)], maxLow := max s.maxLow s.low },
         s!"{out}:{showEntries o}:blocks={t.blocks.length}")
     | none => (s, "unknown-table")
+  | "expectok" :: _ => (s, "ok")      -- an expectation the harness checked itself against the property
   | ["get", u, ts] =>
     match unhex u, ts.toNat? with
     | some u, some r =>
